@@ -14,7 +14,7 @@ from vf import automata, contracts, drivers, recipes
 PROPERTY = "C05"
 LEVEL = "fault_enumeration"
 SHARDS = {"quick": 4, "thorough": 16}
-REQUIRED = ["asgi-automaton", "wsgi-automaton", "fault-prefix", "fault-exception-identity", "wsgiref-validator"]
+REQUIRED = ["asgi-automaton", "wsgi-automaton", "fault-prefix", "fault-exception-identity", "wsgiref-validator", "reused-response-object"]
 RULE = ("Generated response recipes (every response class x statuses incl. unknown ones x header sets with mixed-case names and Latin-1 values x cookie lists x "
         "str/bytes/JSON content x 0/1/many-chunk streams x SSE event lists x files incl. 0-byte, non-ASCII file and download names, every Range outcome "
         "incl. 400/416) x GET/HEAD, run to completion on both interfaces and then once per fault point: WSGI close() after item n for every n, ASGI client "
@@ -29,7 +29,10 @@ ASSUMPTIONS = [
 
 def file_requests(rng):
     rh = rng.choice(recipes.RANGE_HEADERS)
-    return [("Range", rh)] if rh is not None else []
+    hdrs = [("Range", rh)] if rh is not None else []
+    if rng.random() < 0.35:
+        hdrs.append(("If-Range", rng.choice(['"stale-etag"', "Wed, 21 Oct 2015 07:28:00 GMT", "", "garbage", 'W/"x"'])))
+    return hdrs
 
 
 def describe(r):
@@ -238,6 +241,33 @@ def run(ctx):
         run_asgi_case(ctx, r, method, hdrs, edges, zerocopy=(r["cls"] == "File" and i % 3 == 0))
         if i < 3 or r["cls"] in ("SSE", "File"):
             ctx.sample(r["cls"], {"recipe": describe(r), "method": method, "headers": hdrs}, cap=1)
+    # ---- one response object serving two connections in a row (a response instance is itself an application)
+    from baize import asgi, wsgi
+    for i, (r, method, hdrs) in enumerate(todo):
+        if r["cls"] in ("Stream", "SSE") or r.get("raise_at") is not None or i % 3:
+            continue
+        for iface, ns in (("wsgi", wsgi), ("asgi", asgi)):
+            random.seed(77)
+            try:
+                obj = recipes.response_from(ns, r)
+            except Exception:
+                continue
+            req = drivers.Req(method=method, headers=hdrs)
+            for n in (1, 2):
+                random.seed(77)
+                case = {"recipe": r, "method": method, "headers": hdrs, "iface": iface, "use_of_the_same_object": n}
+                if iface == "wsgi":
+                    res = drivers.run_wsgi(obj, drivers.to_environ(req))
+                    probs = automata.check_wsgi(res.events, edges=edges)
+                else:
+                    res = drivers.run_asgi(obj, drivers.to_scope(req))
+                    probs = automata.check_asgi_http(res.sent, edges=edges)
+                ctx.mon("reused-response-object")
+                if res.exc is not None:
+                    ctx.violation(f"{iface}|reuse|exception|{type(res.exc).__name__}|{r['cls']}", case, repr(res.exc))
+                for w, d in probs:
+                    ctx.violation(f"{iface}|reuse|{w}|{r['cls']}", case, d)
+                ctx.case((iface, "reuse", repr(r), method, repr(hdrs), n))
     ctx.extra["automaton_edges"] = dict(edges)
     ctx.monitors["header-hygiene-contract(icontract)"] = contracts.COUNTS["list_headers.post"]
 
